@@ -78,7 +78,17 @@ func (a *Account) Read(p []byte) (int, error) {
 
 // HashAndSalt generates a password hash from a users obfuscated plaintext password
 func HashAndSalt(pwd []byte) string {
-	hash, _ := bcrypt.GenerateFromPassword(pwd, bcrypt.MinCost)
+	hash, _ := bcrypt.GenerateFromPassword(bcryptInput(pwd), bcrypt.MinCost)
 
 	return string(hash)
+}
+
+// bcryptInput returns the part of a password that bcrypt takes into account: its first 72 bytes.  bcrypt refuses
+// longer input, which used to leave an account with a longer password without any hash, so that nobody could log in to it.
+func bcryptInput(pwd []byte) []byte {
+	if len(pwd) > 72 {
+		return pwd[:72]
+	}
+
+	return pwd
 }
